@@ -63,6 +63,7 @@ type muxOp struct {
 	pes      *ref.PES
 	af       *ref.AF
 	strayOpt bool // hand an optional header struct to the Muxer although the stream id (0xBE/0xBF) has none
+	reuseAF  bool // hand over the adaptation field struct (same pointer, same content) of the previous successful WriteData that had one
 	// Packet
 	pkt *astits.Packet
 }
@@ -225,6 +226,7 @@ func drawMuxOp(t *rapid.T, prof muxProfile) muxOp {
 		}
 		drawMuxPayload(t, prof, op.pes, afSize)
 		op.strayOpt = gen.Bool(t, "strayopt")
+		op.reuseAF = gen.Chance(t, 30, "reuseaf")
 	case opPacket:
 		m := gen.TSPacket(t, "wp")
 		m.PID = 0x1f00 + uint16(rapid.IntRange(0, 15).Draw(t, "wppid"))
@@ -466,6 +468,8 @@ func runMuxHistoryUnguarded(period int, setPeriod bool, ops []muxOp, w *writerSp
 	gens := map[uint16]int{}
 	var replay []func(*astits.Muxer)
 	predAuto := uint16(0x100)
+	var lastAF *astits.PacketAdaptationField
+	var lastAFModel *ref.AF
 	for i := range ops {
 		op := &ops[i]
 		st := &stepRec{idx: i, kind: op.kind, cfgBefore: cfg.clone(), outOff: w.buf.Len()}
@@ -549,7 +553,13 @@ func runMuxHistoryUnguarded(period int, setPeriod bool, ops []muxOp, w *writerSp
 		case opData:
 			pid, known := target()
 			st.pid, st.knownPID = pid, known
-			st.pes, st.af = op.pes, op.af
+			af := op.af
+			reuse := op.reuseAF && lastAF != nil
+			if reuse {
+				// a caller that keeps one adaptation field struct and hands it to successive calls
+				af = lastAFModel
+			}
+			st.pes, st.af = op.pes, af
 			st.payloadLen = len(op.pes.Payload)
 			d := &astits.MuxerData{PID: pid, PES: conv.PESStruct(op.pes, false, op.pes.Payload, 0)}
 			if !hasOptHeaderLib(op.pes.StreamID) {
@@ -559,16 +569,19 @@ func runMuxHistoryUnguarded(period int, setPeriod bool, ops []muxOp, w *writerSp
 					d.PES.Header.OptionalHeader = &astits.PESOptionalHeader{MarkerBits: 2, PTSDTSIndicator: 2, PTS: &astits.ClockReference{Base: 0x1fffffffe}}
 				}
 			}
-			if op.af != nil {
-				d.AdaptationField = conv.AFStruct(op.af, false)
-				st.forceRAP = op.af.RAI && pid == cfg.pcr
-				st.afTooBig = op.af.Size() > 184
+			if af != nil {
+				d.AdaptationField = conv.AFStruct(af, false)
+				if reuse {
+					d.AdaptationField = lastAF
+				}
+				st.forceRAP = af.RAI && pid == cfg.pcr
+				st.afTooBig = af.Size() > 184
 				// the Muxer reserves room for the optional header struct it was handed, even when the stream id has none
 				reserve := op.pes.HeaderSize()
 				if !hasOptHeaderLib(op.pes.StreamID) && op.strayOpt {
 					reserve += 8
 				}
-				st.afFits = op.af.Size()+reserve <= 184
+				st.afFits = af.Size()+reserve <= 184
 			} else {
 				st.afFits = true
 			}
@@ -577,7 +590,11 @@ func runMuxHistoryUnguarded(period int, setPeriod bool, ops []muxOp, w *writerSp
 				st.stype = cfg.streams[i].stype
 			}
 			st.n, st.err = m.WriteData(d)
-			st.desc = fmt.Sprintf("WriteData(pid=%#x sid=%#x hdr=%d payload=%d af=%s)", pid, op.pes.StreamID, op.pes.HeaderSize(), len(op.pes.Payload), afDesc(op.af))
+			lastAF, lastAFModel = nil, nil
+			if d.AdaptationField != nil && st.err == nil {
+				lastAF, lastAFModel = d.AdaptationField, af
+			}
+			st.desc = fmt.Sprintf("WriteData(pid=%#x sid=%#x hdr=%d payload=%d af=%s)", pid, op.pes.StreamID, op.pes.HeaderSize(), len(op.pes.Payload), afDesc(af))
 		case opPacket:
 			st.pid = op.pkt.Header.PID
 			st.n, st.err = m.WritePacket(op.pkt)
